@@ -18,6 +18,8 @@ import numpy as np
 import impl
 
 MAX_SIZE = 160          # elements of any intermediate dense array
+MAX_RANK = 7            # the properties quantify over 0-d .. 5-d; beyond 8 axes `check_compressed_axes` rejects sorted
+                        # compressed_axes containing an axis >= 8 (set iteration order; reported, proposed_fixes/C05-compressed-axes-set-order)
 MAX_ABS = 10 ** 6       # magnitude bound: keeps every run far from int64 overflow (the model is unbounded)
 
 F1 = {
@@ -514,6 +516,8 @@ def acceptable(n):
         return False
     if n.err:
         return True
+    if n.dense.ndim > MAX_RANK:
+        return False
     return n.dense.size <= MAX_SIZE and (n.dense.size == 0 or int(np.abs(n.dense).max()) <= MAX_ABS) and abs(n.fill) <= MAX_ABS
 
 
